@@ -499,6 +499,24 @@ func c12(r *core.Report) {
 					}
 				}
 				r.Check(onlyValue, key, p.Pos(el.lit.Pos()), "Value derives from the value parameter", "SchemaError.Value ("+core.ExprStr(vexpr)+") does not derive from this function's value parameter")
+				// a member of the value (fetched from it by key) is quoted: the error points at that member
+				if id, isID := ast.Unparen(vexpr).(*ast.Ident); isID && onlyValue {
+					for _, a := range ff.Assigns(info.ObjectOf(id)) {
+						if a.MapIndex == nil {
+							continue
+						}
+						want := core.ExprStr(a.MapIndex.Index)
+						marked := false
+						for _, anc := range core.PathTo(fd.Body, el.lit) {
+							if c, ok := anc.(*ast.CallExpr); ok && len(c.Args) == 2 {
+								if f := core.CalleeOf(info, c); f != nil && f.Name() == "markSchemaErrorKey" && core.ExprStr(c.Args[1]) == want {
+									marked = true
+								}
+							}
+						}
+						r.Check(marked, key+"/member", p.Pos(el.lit.Pos()), "the error is marked with the member's key", "the SchemaError ("+el.field+") quotes "+id.Name+", the member of the value under the key "+want+", but is not marked with that key (markSchemaErrorKey): its pointer resolves to the enclosing object, not to the value it quotes")
+					}
+				}
 			}
 		}
 	})
